@@ -241,6 +241,11 @@ func Run(cfg Config, main func()) *Sched {
 		synctest.Wait()
 		now := time.Now()
 		s.mu.Lock()
+		for n, u := range s.stalled {
+			if !now.Before(u) {
+				delete(s.stalled, n)
+			}
+		}
 		var rs []*G
 		for _, g := range s.all {
 			if g.state == running {
